@@ -87,6 +87,7 @@ DecV(cfg, T0, b, prior) == LET T == Resolve(T0) IN
                        ELSE IF T.flat THEN Ok(FromBits(T.w, r.x)) ELSE Ok(ZagZig(r.x)))
     [] T.k = "marked" -> IF Marker(cfg, T) THEN (IF b = <<>> THEN Ok(ZeroInt) ELSE IF Len(b) < 4 THEN Err ELSE Ok(FromBits(32, FromLE32(Take(b, 4)))))
                          ELSE (LET r == VarOf(b) IN IF ~r.ok THEN Err ELSE Ok(ZagZig(r.x)))
+    [] T.k = "refid" -> IF Len(b) < 4 THEN Err ELSE Ok([prior EXCEPT ![1] = FromBits(32, FromLE32(Take(b, 4)))])    \* sets the first field, leaves the rest of the target alone
     [] T.k = "f32" -> IF b = <<>> THEN Ok(Zero(T)) ELSE IF Len(b) < 4 THEN Err ELSE Ok(Take(b, 4))
     [] T.k = "f64" -> IF b = <<>> THEN Ok(Zero(T)) ELSE IF Len(b) < 8 THEN Err ELSE Ok(Take(b, 8))
     [] T.k = "string" -> Ok(b)
